@@ -39,6 +39,9 @@ def shards(tier, seed):
                 out.append(("toy_mul_sample_p%d_%d" % (p, i), dict(kind="toy_mul", p=p, part=i, parts=4, sample=5)))
         for i in range(32):
             out.append(("toy_muladd_%d" % i, dict(kind="toy_muladd", ps=(5, 7, 11, 13), part=i, parts=32, grid=2)))
+    out.append(("pyopt_toy_mul_p7", dict(kind="toy_mul", p=7, part=0, parts=1, _pyopt=True)))
+    out.append(("pyopt_toy_muladd", dict(kind="toy_muladd", ps=(5, 7), part=0, parts=12, grid=2, _pyopt=True)))
+    out.append(("pyopt_prod_SECP112r2", dict(kind="prod", cname="SECP112r2", nrand=2, sl=1, si=0, _pyopt=True)))
     for c in lib.pick_curves(tier, seed, extra=3):
         sl = 4 if c.order.bit_length() > 300 else 2
         for i in range(sl):
